@@ -49,8 +49,9 @@ def specExpand (alnum : Char → Bool) (env : Env) (path : Text) : Text := specG
 /-! ### The single pass as a decomposition of the path
 
 `parse` cuts the path into literal characters and substituted references (exactly as `specExpand`
-walks it). It is used to *state* where the current code (replace-all on the accumulating output)
-can go wrong: `junctionFree` says that no literal `$` of the path becomes the start of a
+walks it). It is used to describe the result, and to *state* where the historical code (replace-all on the
+accumulating output, `expand_unfixed`)
+went wrong: `junctionFree` says that no literal `$` of the path becomes the start of a
 well-formed reference to a set variable once the references to its right have been replaced by
 their values — i.e. no substituted value (with its neighbouring literal text) spells a new
 reference. -/
@@ -93,9 +94,9 @@ reference to a set variable -/
 def junctionFree (alnum : Char → Bool) (env : Env) (path : Text) : Bool :=
   junctionFreeSegs alnum env (parse alnum env path)
 
-/-- archive name of slot `i` as the statement reads for the roller: the expanded location of the
-pattern with the index filled in -/
-def specArchive (alnum : Char → Bool) (env : Env) (pattern : Text) (i : Nat) : Text :=
-  specExpand alnum env (replaceAll ['{', '}'] (decimal i) pattern)
+/-- where the statement puts the file of a call site: the given text (for the roller: the pattern
+with the index filled in) expanded exactly ONCE -/
+def specLocation (alnum : Char → Bool) (env : Env) (site : CallSite) (given : Text) : Text :=
+  specExpand alnum env (site.submitted given)
 
 end Log4rs.EnvExpand
